@@ -47,6 +47,10 @@ func runC05(c *Ctx) {
 		fn := am.Fn
 		c.touch(fnKey(fn))
 		s := newSumm(p, 0)
+		owner := fn
+		s.HelperInline = func(f *ssa.Function) bool {
+			return privateHelper(owner, f) && f != mover && len(findLoops(f)) == 0 && !eg.MayEmit[f]
+		}
 		paths, _ := s.Function(fn)
 		var bad []string
 		nResume := 0
@@ -319,8 +323,8 @@ func runC05Shortcuts(c *Ctx, ea *engineAnchors, eg *EventGraph) {
 			if preflop {
 				continue
 			}
-			few := hasCond(first, func(v *Val) bool { return v.K == KAtom && v.At.Op == "le" && !v.Neg && v.At.A.String() == mov+" - 1" })
-			many := hasCond(first, func(v *Val) bool { return v.K == KAtom && v.At.Op == "le" && v.Neg && v.At.A.String() == mov+" - 1" })
+			few := hasCond(first, func(v *Val) bool { return ltIs(v, mov+" - 2") })
+			many := hasCond(first, func(v *Val) bool { return ltIs(v, "-"+mov+" + 1") })
 			switch {
 			case o.Kind == "emit" && o.Event == "GameEvent_ReadyRequested":
 				nReady++
